@@ -108,14 +108,14 @@ fn ref_text(buf: &[u8], blen: usize) -> Option<(usize, usize)> {
 }
 
 macro_rules! text_h {
-    ($name:ident, $T:ty, $n:expr, $unw:expr) => {
+    ($name:ident, $T:ty, $n:expr, $unw:expr) => { text_h!($name, $T, $n, $unw, symbolic); };
+    ($name:ident, $T:ty, $n:expr, $unw:expr, $mode:ident) => {
         de_harness! {
             #[kani::unwind($unw)]
             fn $name() {
                 const N: usize = $n;
                 let buf: [u8; N] = kani::any();
-                let len: usize = kani::any();
-                kani::assume(len <= N);
+                let len: usize = len_mode!($mode, N);
                 let w: u8 = kani::any();
                 kani::assume(w < N_PRIM);
                 let cfg = cfg_any();
@@ -165,6 +165,8 @@ macro_rules! text_h {
 }
 text_h!(c08_text_str_le5, &str, 5, 7);
 text_h!(c08_text_string_le4, String, 4, 6);
+// hostile length prefixes: up to 10 LEB bytes (values up to 2^64 and beyond) in a fixed 12-byte buffer
+text_h!(c08_text_str_eq12, &str, 12, 14, fixed);
 
 // ---- unit / null
 de_harness! {
